@@ -4,6 +4,7 @@ import (
 	"bytes"
 	"errors"
 	"fmt"
+	"github.com/tidwall/tile38/internal/field"
 	"math"
 	"strconv"
 	"strings"
@@ -320,6 +321,10 @@ func (s *Server) cmdSearchArgs(
 		var obj string
 		if vs, obj, ok = tokenval(vs); !ok || obj == "" {
 			err = errInvalidNumberOfArguments
+			return
+		}
+		if field.JSONTooDeep(obj) {
+			err = errInvalidArgument("object")
 			return
 		}
 		lfs.obj, err = geojson.Parse(obj, &s.geomParseOpts)
